@@ -33,13 +33,15 @@ type Act struct {
 
 func (a Act) String() string {
 	switch a.Op {
-	case "value", "observe", "chans", "go":
+	case "value", "observe", "chans", "go", "setz":
 		return a.Op
 	}
 	return a.Op + " " + strconv.Itoa(a.I)
 }
 
-// Scenario: Kind "watch" (ops set v / value / observe / chans), "future" (Flags per waiter "p"/"c";
+// Scenario: Kind "watch" (ops set v / setz / value / observe / chans; `set v` passes the same pointer
+// object for the same v, so a repeated value is a Set of a value equal (==) to the current one; setz is
+// Set of the zero value of T, the nil pointer — outside the model, whose values are integers: monitor only), "future" (Flags per waiter "p"/"c";
 // ops call j / cancel j / fill v), "lazy" (ops call v / callp v: one call run to completion, v = what f
 // would return / panic with if it ran now; go / ret v / pan v: concurrent callers of a gated f, see
 // lazy_test.go).
@@ -114,6 +116,14 @@ func runWatch(sc Scenario) (out Outcome) {
 	}
 	var lastSet *int // reference: most recent Set
 	nSets := 0
+	ptrs := map[int]*int{} // one pointer object per value: Set(v) twice hands the library two equal values
+	intern := func(v int) *int {
+		if p, ok := ptrs[v]; ok {
+			return p
+		}
+		ptrs[v] = box(v)
+		return ptrs[v]
+	}
 	type ret struct {
 		ch    chan struct{}
 		epoch int // number of Sets when it was returned
@@ -146,9 +156,13 @@ func runWatch(sc Scenario) (out Outcome) {
 	for step, a := range sc.Acts {
 		var o string
 		switch a.Op {
-		case "set":
-			p, _ := vlib.Try(func() { w.Set(box(a.I)) })
-			lastSet = box(a.I)
+		case "set", "setz":
+			arg := intern(a.I)
+			if a.Op == "setz" {
+				arg = nil
+			}
+			p, _ := vlib.Try(func() { w.Set(arg) })
+			lastSet = arg
 			nSets++
 			synctest.Wait()
 			var vals []string
@@ -157,14 +171,14 @@ func runWatch(sc Scenario) (out Outcome) {
 				vals = append(vals, showPtr(ob.last))
 				idx(ob.ch)
 				if showPtr(ob.last) != showPtr(lastSet) {
-					fail("watchable-observer-stale", fmt.Sprintf("step %d: after Set(%d) observer %d is parked having last seen %s", step, a.I, j, showPtr(ob.last)), map[string]interface{}{"sets": nSets})
+					fail("watchable-observer-stale", fmt.Sprintf("step %d: after Set(%s) observer %d is parked having last seen %s", step, showPtr(arg), j, showPtr(ob.last)), map[string]interface{}{"sets": nSets})
 				}
 				ob.mu.Unlock()
 			}
 			o = "ok obs=" + strings.Join(vals, ",")
 			if p {
 				o = "panic obs=" + strings.Join(vals, ",")
-				fail("watchable-set-panicked", fmt.Sprintf("step %d: Set(%d) panicked", step, a.I), nil)
+				fail("watchable-set-panicked", fmt.Sprintf("step %d: Set(%s) panicked", step, showPtr(arg)), nil)
 			}
 			for _, r := range returned {
 				if r.epoch < nSets && !isClosed(r.ch) {
@@ -416,6 +430,16 @@ func runInBubble(t *testing.T, sc Scenario) (out Outcome) {
 
 type models struct{ watch, future, lazy *vlib.Model }
 
+// outsideModel: the Watchable model's values are integers; a Set of the nil pointer is judged by the monitor only.
+func outsideModel(sc Scenario) bool {
+	for _, a := range sc.Acts {
+		if a.Op == "setz" {
+			return true
+		}
+	}
+	return false
+}
+
 func (ms *models) of(kind string) *vlib.Model {
 	switch kind {
 	case "watch":
@@ -459,6 +483,8 @@ func genScenario(r *vlib.Rand, res *vlib.Result) Scenario {
 		n := r.Range(2, 14)
 		mode := r.Intn(3)
 		v := 0
+		repeat := r.Chance(1, 2) // Sets that carry the value the Watchable already holds
+		zero := r.Chance(1, 4)   // Sets of the zero value of T (also as the very first Set)
 		for i := 0; i < n; i++ {
 			w := []int{5, 4, 2, 1}
 			if mode == 1 && i < 3 { // Value / observers before the first Set
@@ -469,6 +495,18 @@ func genScenario(r *vlib.Rand, res *vlib.Result) Scenario {
 			}
 			switch r.Pick(w...) {
 			case 0:
+				if zero && r.Chance(1, 3) {
+					sc.Acts = append(sc.Acts, Act{Op: "setz"})
+					break
+				}
+				if repeat && v > 0 && r.Chance(1, 3) {
+					if r.Chance(1, 4) {
+						sc.Acts = append(sc.Acts, Act{Op: "set", I: r.Range(1, v)}) // an earlier value again
+					} else {
+						sc.Acts = append(sc.Acts, Act{Op: "set", I: v}) // (the current one unless a setz / earlier value came between)
+					}
+					break
+				}
 				v++
 				sc.Acts = append(sc.Acts, Act{Op: "set", I: v})
 			case 1:
@@ -523,7 +561,7 @@ func nontrivial(sc Scenario) bool {
 	case "watch":
 		sets, reads := 0, 0
 		for _, a := range sc.Acts {
-			if a.Op == "set" {
+			if a.Op == "set" || a.Op == "setz" {
 				sets++
 			} else if a.Op == "value" || a.Op == "observe" {
 				reads++
@@ -586,7 +624,7 @@ func (c *checker) check(sc Scenario, reps int) {
 			}
 			c.res.Fail(vlib.Failure{Source: "monitor", Kind: vv.Kind, Params: vv.Params, What: vv.What, Case: ssc})
 		}
-		if m := c.ms.of(sc.Kind); m != nil {
+		if m := c.ms.of(sc.Kind); m != nil && !outsideModel(sc) {
 			bad, err := conform(m, sc.Kind, out)
 			if err != nil {
 				c.res.ModelMissing = err.Error()
@@ -654,7 +692,9 @@ func TestVerif(t *testing.T) {
 		} else {
 			fmt.Println("monitor: no clause violated")
 		}
-		if m := ms.of(sc.Kind); m != nil {
+		if outsideModel(sc) {
+			fmt.Println("conformance: a Set of the nil pointer is outside the model (monitor only)")
+		} else if m := ms.of(sc.Kind); m != nil {
 			if bad, err := conform(m, sc.Kind, out); err == nil && bad != "" {
 				fmt.Println("conformance:", bad)
 			} else if err == nil {
